@@ -212,6 +212,29 @@ def boundary_interval(rng):
     return a + "/" + b if k < 4 else b + "/" + a
 
 
+def limit_strings():
+    out = []
+    for y in (0, 1, 9999):
+        dates = []
+        for w in (0, 1, 2, 51, 52, 53, 54):
+            for d in ("", 0, 1, 2, 5, 6, 7, 8):
+                dates += ["%04d-W%02d%s" % (y, w, "" if d == "" else "-%d" % d), "%04dW%02d%s" % (y, w, d)]
+        for n in (0, 1, 2, 59, 60, 365, 366, 367):
+            dates += ["%04d-%03d" % (y, n), "%04d%03d" % (y, n)]
+        for m, d in ((1, 1), (1, 2), (12, 30), (12, 31), (2, 29), (0, 1), (13, 1)):
+            dates += ["%04d-%02d-%02d" % (y, m, d), "%04d%02d%02d" % (y, m, d)]
+        for x in dates:
+            out.append(x)
+            out.append(x + "T23:59:59.999999")
+            out.append(x + "T00:00+14:00")
+            out.append(x + "T23:59-12:00")
+        for x in dates[::3]:
+            out.append(x + "/P1D")
+            out.append("P1D/" + x)
+            out.append(x + "/" + x)
+    return out
+
+
 def op(o, s):
     return ("ptotal", o, s)
 
@@ -229,6 +252,11 @@ def gen_ops(rng, tier):
             for fl in ("01", "11", "00", "10"):
                 for nn in ("", "n"):
                     yield op("%s01%s:%s" % (fl, nn, tz), s)
+    # --- the limits of the representable range in every date form: week, ordinal and calendar dates of years 0000/0001/9999 whose
+    #     calendar date may fall into year 0 or 10000, alone, with a time part, and as interval endpoints
+    for s in limit_strings():
+        for o in ("0100:none", "1100:none", "0000:none", "1001:3600", "0100:naive", "0100:@Pacific/Kiritimati"):
+            yield op(o, s)
     # --- tz=None: interval strings with every mix of offset / no offset on the endpoints; bare times without now=
     for _ in range(4_000 * n):
         s = mixed_interval(rng)
